@@ -46,7 +46,7 @@ type Worker struct {
 	crossAll bool
 	crossCtr int
 	path     *Path
-	pathLog  strings.Builder
+	ctx      solverCtx
 	lastVals map[string]ModelVal
 
 	globals    map[*ssa.Global]*Value
@@ -59,6 +59,7 @@ type Worker struct {
 	depth      int
 
 	branches        int
+	knownBranches   int
 	unknownBranches int
 	funcs           map[string]bool
 	stubs           map[string]int
